@@ -15,7 +15,7 @@ RULE = (
     "constructors in a generated representation: arbitrary vertex order with repeats (for polygons with <= 5 "
     "vertices ALL permutations are tried inside each case), arbitrary face order, arbitrary vertex order inside "
     "each face, arbitrary face negations; Pyramid over a polygon with an apex on either side, measured again after "
-    "its apex was moved in place; Segment.length on every edge, again after an end point was replaced by item assignment and after a move, and summed over the edges handed out by segments(). Oracle: exact "
+    "its apex was moved in place; needle-shaped triangles and kites (base across the coordinate range, quarter-lattice height); Segment.length on every edge, again after an end point was replaced by item assignment and after a move, and summed over the edges handed out by segments(). Oracle: exact "
     "perimeter (sum of sqrt of rationals), area |sum p_i x p_{i+1}|/2, volume sum|det|/6, height |n.(a-p)|/|n|; "
     "relative tolerance 1e-9; volume(x) vs x.volume() 1e-9. non-trivial = oblique pose (normal with >= 2 "
     "non-zero components, any face for polyhedra) or permuted order; distinct = distinct (shape, representation)."
@@ -173,6 +173,7 @@ def strata(tier):
     out = [
         Stratum("polygon/3-5", "hyp", PC.polygon_case(3, 5), 300 if q else 6000),
         Stratum("polygon/6-8", "hyp", PC.polygon_case(6, 8), 400 if q else 12000),
+        Stratum("polygon/needle", "hyp", PC.needle_polygon_case(), 120 if q else 4000),
         Stratum("pyramid", "hyp", PC.pyramid_case(), 400 if q else 12000),
     ]
     for f in fams:
